@@ -27,9 +27,11 @@ TokenValid == 300000
 NoIn == [dir |-> "timeout", tid |-> -1, peer |-> "none", kind |-> "none", val |-> 0, code |-> 0]
 NoItem == [kind |-> "none", sig |-> 0, seq |-> 0, cas |-> -1]
 
-NoQ == [on |-> FALSE, kind |-> "fn", cand |-> {}, vis |-> {}, tids |-> {}, resp |-> {}, seen |-> <<>>, vals |-> <<>>]
+\* ctok: candidate -> time its token was issued, for the candidates that carry one (a lookup is seeded with the cached nodes of
+\* an earlier one, tokens and all; ClosestNodes::add keeps the first node of an id, so a table member shadows its cached copy)
+NoQ == [on |-> FALSE, kind |-> "fn", cand |-> {}, vis |-> {}, tids |-> {}, resp |-> {}, seen |-> <<>>, vals |-> <<>>, ctok |-> <<>>]
 NoP == [on |-> FALSE, item |-> NoItem, tids |-> {}, acks |-> 0, errs |-> <<>>]
-NoC == [on |-> FALSE, kind |-> "fn", nodes |-> {}, seen |-> <<>>]
+NoC == [on |-> FALSE, kind |-> "fn", nodes |-> {}, seen |-> <<>>]     \* seen: token-bearing cached node -> time of issue
 
 Init0 == [tid |-> 0, infl |-> {}, cap |-> 0,
           q |-> [t \in Targets |-> NoQ], p |-> [t \in Targets |-> NoP], cache |-> [t \in Targets |-> NoC],
@@ -61,8 +63,9 @@ SendAll(st, t, D, kind, now) ==
        IN [st |-> r.st, tids |-> r.tids \cup {st.tid}]
 
 \* core.rs get_cached_closest_nodes: a cached lookup is usable when one of its nodes carries a token not older than 5 min
+\* (every responder of a get-kind lookup; of a find_node lookup the candidates inherited from a usable cache entry)
 CacheUsable(st, t, now) ==
-  st.cache[t].on /\ st.cache[t].kind = "get" /\ \E n \in st.cache[t].nodes : now - st.cache[t].seen[n] <= TokenValid
+  st.cache[t].on /\ \E n \in DOMAIN st.cache[t].seen : now - st.cache[t].seen[n] <= TokenValid
 
 \* Actor::get: ride the active lookup of the target (whatever its kind) or create one.
 \* create_iterative_query: candidates = routing table + usable cache; the bootstrap addresses are visited as well
@@ -72,14 +75,16 @@ DoGet(st, t, kind, now) ==
   ELSE LET cand == Dom(st.rt) \cup (IF CacheUsable(st, t, now) THEN st.cache[t].nodes ELSE {})
            first == Closest(t, cand) \cup (IF Cardinality(cand) < Cardinality(Boot) THEN Boot ELSE {})
            r == SendAll(st, t, first, kind, now)
-       IN [r.st EXCEPT !.q[t] = [NoQ EXCEPT !.on = TRUE, !.kind = kind, !.cand = cand, !.vis = first, !.tids = r.tids]]
+           inh == IF CacheUsable(st, t, now) THEN DOMAIN st.cache[t].seen \ DOMAIN st.rt ELSE {}
+       IN [r.st EXCEPT !.q[t] = [NoQ EXCEPT !.on = TRUE, !.kind = kind, !.cand = cand, !.vis = first, !.tids = r.tids,
+                                            !.ctok = [n \in inh |-> st.cache[t].seen[n]]]]
 
 Populate(st, now) == IF Boot = {} THEN st ELSE DoGet(st, Self, "fn", now)
 
 Finish(st, cs, out) == [st EXCEPT !.done = [c \in Calls |-> IF c \in cs THEN out ELSE st.done[c]],
                                   !.outcomes = [c \in Calls |-> IF c \in cs THEN st.outcomes[c] + 1 ELSE st.outcomes[c]]]
 
-\* PutQuery::start on the given nodes (only token bearers: responders of a get-kind lookup)
+\* PutQuery::start on the given nodes (the caller passes the token bearers only)
 StartPut(st, t, nodes, now) ==
   LET r == SendAll(st, t, nodes, "store", now)
   IN [st |-> [r.st EXCEPT !.p[t].tids = r.tids], sent |-> r.tids # {}]
@@ -106,7 +111,7 @@ HandleApi(st, now) ==
                   ELSE LET fresh == [NoP EXCEPT !.on = TRUE, !.item = it]
                            stp == [st0 EXCEPT !.p[t] = fresh]
                        IN IF CacheUsable(st0, t, now)
-                          THEN LET r == StartPut(stp, t, st0.cache[t].nodes, now)
+                          THEN LET r == StartPut(stp, t, DOMAIN st0.cache[t].seen, now)
                                IN IF ~r.sent
                                   THEN \* Actor::put returns Err before inserting; a superseded put is already gone
                                        Finish([st0 EXCEPT !.p[t] = IF rule = "go" /\ cur.on /\ it.kind = "mut" /\ cur.item.kind = "mut"
@@ -158,6 +163,9 @@ VisitAll(st, ord, now) ==
 
 \* what a finished lookup hands to a waiting put / the cache: find_node -> closest candidates, otherwise the responders
 Result(st, t) == IF st.q[t].kind = "fn" THEN Closest(t, st.q[t].cand) ELSE st.q[t].resp
+\* ... and the token bearers among them, with the time of issue
+ResultTok(st, t) == IF st.q[t].kind = "fn" THEN [n \in Result(st, t) \cap DOMAIN st.q[t].ctok |-> st.q[t].ctok[n]]
+                    ELSE [n \in Result(st, t) |-> IF n \in DOMAIN st.q[t].seen THEN st.q[t].seen[n] ELSE 0]
 
 \* start_put_queries for the finished lookups: [st, failed] (failed = targets whose put could not address any node)
 RECURSIVE StartPuts(_, _, _, _)
@@ -165,7 +173,7 @@ StartPuts(st, doneQs, ord, now) ==
   IF ord = <<>> THEN [st |-> st, failed |-> {}]
   ELSE LET t == Head(ord)
        IN IF t \notin doneQs \/ ~st.p[t].on \/ st.p[t].tids # {} THEN StartPuts(st, doneQs, Tail(ord), now)
-          ELSE LET nodes == IF st.q[t].kind = "get" THEN Result(st, t) ELSE {}    \* find_node results carry no tokens
+          ELSE LET nodes == DOMAIN ResultTok(st, t)    \* find_node results carry no tokens of their own
                    r == StartPut(st, t, nodes, now)
                    rest == StartPuts(r.st, doneQs, Tail(ord), now)
                IN [st |-> rest.st, failed |-> rest.failed \cup (IF r.sent THEN {} ELSE {t})]
@@ -216,7 +224,7 @@ Tick(stIn, input, now, expired, ord) ==
       \* address, which is already confirmed when a behaviour starts, so no self-ping is triggered)
       st5 == [st4 EXCEPT !.cache = [t \in Targets |-> IF t \in doneQs /\ st4.q[t].cand # {}
                                                        THEN [on |-> TRUE, kind |-> st4.q[t].kind, nodes |-> Result(st4, t),
-                                                             seen |-> [n \in Result(st4, t) |-> IF n \in Dom(st4.q[t].seen) THEN st4.q[t].seen[n] ELSE 0]]
+                                                             seen |-> ResultTok(st4, t)]
                                                        ELSE st4.cache[t]]]
       st6 == [st5 EXCEPT !.q = [t \in Targets |-> IF t \in doneQs THEN NoQ ELSE st5.q[t]],
                          !.p = [t \in Targets |-> IF t \in donePs THEN NoP ELSE st5.p[t]],
